@@ -202,6 +202,8 @@ def _gen_process_inputs(rng, case, config):
                        rng.choice(TZS)] for _ in range(2)]
     case["simcwds"] = rng.sample(SIMCWDS, 2)
     case["envs"] = rng.sample(ENVS, 2)
+    case["locales"] = [rng.choice(["utf-8", "utf-8", "ascii", "latin-1",
+                                   "cp1252"]) for _ in range(2)]
     if config == "proc":
         case["hashseeds"] = [str(rng.choice([0, 1, 4242])),
                              str(rng.randrange(1, 2 ** 32))]
@@ -225,6 +227,7 @@ def _run_inproc(case, pre, garbage, which=0):
         from detsim.simclock import SimClock
         clock = SimClock(*case["clocks"][which])
         fs.cwd = case["simcwds"][which]
+        fs.locale_encoding = (case.get("locales") or ["utf-8"] * 2)[which]
     for name, data in (case.get("files") or {}).items():
         fs.put(name, data)
     argv = list(case["argv"])
@@ -498,4 +501,5 @@ def evidence_extra(agg):
 
 
 SHRINK_SKIP = {"pre", "seed", "garbage", "hashseeds", "cwds", "tool",
-               "input", "lib", "clocks", "simcwds", "tzs", "files", "envs"}
+               "input", "lib", "clocks", "simcwds", "tzs", "files", "envs",
+               "locales"}
